@@ -3,6 +3,7 @@
   This file: Binary.Skip. Stream skippers and skip decoders: sections below / Props/C02 stream part.
 -/
 import Verif.Lemmas.SkipBinCor
+import Verif.Lemmas.SkipTplBytes
 namespace Verif.C02
 
 /-- For every well-formed encoded value `v` of any type (nesting ≤ 64, i.e. up to 63 container
@@ -16,5 +17,18 @@ theorem skipBin_exact (v rest : Bytes) (t : UInt8) (h : refLen 64 t v = some v.l
 example : refLen 64 TT.MAP [8, 11, 0,0,0,1, 0,0,0,7, 0,0,0,1, 65] = some 15 := by decide
 example : skipBin ([8, 11, 0,0,0,1, 0,0,0,7, 0,0,0,1, 65] ++ [1, 2]) TT.MAP = .ok 15 :=
   skipBin_exact [8, 11, 0,0,0,1, 0,0,0,7, 0,0,0,1, 65] [1, 2] TT.MAP (by decide)
+
+/-- BytesSkipDecoder.Next: for every well-formed value `v` (nesting ≤ 64) followed by arbitrary bytes,
+    the decoder returns exactly the bytes of `v` and keeps exactly `rest`. -/
+theorem bytesDec_exact (v rest : Bytes) (t : UInt8) (h : refLen 64 t v = some v.length) :
+    bytesDecNext ⟨v ++ rest, 0⟩ t = .ok (v, ⟨rest, 0⟩) := by
+  have h1 := refLen_le_refTpl 64 t _ _ (refLen_append h rest)
+  have h2 := bytesDecNext_exact (v ++ rest) t
+  rw [defaultRecursionDepth_eq, h1] at h2
+  simpa using h2
+
+example : bytesDecNext ⟨[8, 11, 0,0,0,1, 0,0,0,7, 0,0,0,1, 65] ++ [1, 2], 0⟩ TT.MAP
+    = .ok ([8, 11, 0,0,0,1, 0,0,0,7, 0,0,0,1, 65], ⟨[1, 2], 0⟩) :=
+  bytesDec_exact _ _ _ (by decide)
 
 end Verif.C02
